@@ -36,6 +36,10 @@ func main() {
 			fmt.Fprintln(os.Stderr, "-mechref rewrites files in place: give a scratch copy with -repo")
 			os.Exit(2)
 		}
+		if *mech == "exthelper" {
+			fmt.Println("functions split:", mechExtractHelper(*repo, *verifd))
+			return
+		}
 		fmt.Println("rewritten statements:", mechRewrite(*mech, *repo))
 		return
 	}
@@ -107,6 +111,9 @@ func run(prop, tier, repo, verifd string, f propFn) (code int) {
 	r := NewReport(prop, tier, w)
 	if len(renameNotes) > 0 {
 		r.Extra["anchors_located_after_rename"] = renameNotes
+	}
+	if len(foldedHelpers) > 0 {
+		r.Extra["new_tail_helpers_folded_into_their_caller"] = foldedHelpers
 	}
 	f(w, r)
 	if tier == "thorough" && os.Getenv("YV_SELFTEST") == "" {
